@@ -5,6 +5,7 @@ from pyvc.contract import Const, Contract, Int, Obj, Str, UF
 from pyvc.runner import Bounded
 from pyvc.symexec import RaiseSig, exc_class
 from pyvc.values import IntSeqSort, SBool, SDec, SExc, SInt, SObj, SSeq, SStub
+from pyvc.replay import py_replay
 
 LEVEL = "proof"
 T = "passlib/totp.py"
@@ -121,15 +122,23 @@ def _nt_setup(it, args):
     from pyvc.values import SInt, SObj
     utc, local = z3.Int("timegm(utc tuple)"), z3.Int("timegm(local tuple)")
     tup_u, tup_l = SObj("utc time tuple"), SObj("local (wall clock) time tuple")
-    args["time"] = SObj("datetime", fields={"utctimetuple": SStub(lambda i, a, k: tup_u, "utctimetuple"), "timetuple": SStub(lambda i, a, k: tup_l, "timetuple")})
+    # utcoffset() of an aware date-time east or west of Greenwich: a non-zero timedelta (days, seconds) normalised as
+    # Python does (0 <= seconds < 86400, west => days == -1) with wall clock - offset == UTC (unused on the current source)
+    days, secs = z3.Int("utcoffset().days"), z3.Int("utcoffset().seconds")
+    it.run.assume(z3.And(days >= -1, days <= 0, secs >= 0, secs < 86400, days * 86400 + secs != 0, local - (days * 86400 + secs) == utc))
+    delta = SObj("timedelta", fields={"days": SInt(days), "seconds": SInt(secs), "microseconds": 0,
+                                      "total_seconds": SStub(lambda i, a, k: SInt(days * 86400 + secs), "timedelta.total_seconds")})
+    args["time"] = SObj("datetime", fields={"utctimetuple": SStub(lambda i, a, k: tup_u, "utctimetuple"), "timetuple": SStub(lambda i, a, k: tup_l, "timetuple"),
+                                            "utcoffset": SStub(lambda i, a, k: delta, "utcoffset")})
     it.genv.vars["calendar"] = SObj("calendar", fields={"timegm": SStub(lambda i, a, k: SInt(utc) if i.resolve(a[0]) is tup_u else SInt(local), "calendar.timegm")})
     return {"utc_seconds": SInt(utc)}
 
 
 CONTRACTS.append(Contract(
     "normalize_time[int]", f"{T}::TOTP.normalize_time",
-    params={"cls": Obj(cls=(T, "TOTP"), is_class=True), "time": Int()},
-    ensures=[("an integer timestamp is used as given", "result == time")],
+    params={"cls": Obj(cls=(T, "TOTP"), is_class=True, fields={"now": SStub(lambda i, a, k: SInt(z3.Int("now()")), "cls.now", trusted="the clock: any value")}), "time": Int()},
+    ensures=[("an integer timestamp is used as given -- also 0, the epoch itself, which is not 'no time given'", "result == time")],
+    replay=py_replay("from passlib.totp import TOTP", "r = TOTP.normalize_time(V['time'])", "exc is None and r == V['time']", {"time": 0}),
 ))
 CONTRACTS.append(Contract(
     "normalize_time[datetime]", f"{T}::TOTP.normalize_time",
@@ -137,6 +146,9 @@ CONTRACTS.append(Contract(
     setup=_nt_setup,
     ensures=[("a date-time (with or without time zone) denotes its UTC instant: seconds of its UTC time tuple, not of its wall-clock tuple", "result == utc_seconds")],
     descr="any date-time object; calendar.timegm abstract",
+    replay=py_replay("import datetime as D\nfrom passlib.totp import TOTP",
+                     "t = D.datetime(2020, 1, 1, 12, 0, 0, tzinfo=D.timezone(D.timedelta(hours=V['hours']))); r = (TOTP.normalize_time(t), int(t.timestamp()))",
+                     "exc is None and r[0] == r[1]", {"hours": -5}, search=lambda v: [dict(v, hours=h) for h in (-11, -5, 0, 3, 12)]),
 ))
 
 
